@@ -1,10 +1,111 @@
 (** C17 — Line breaking returns a feasible, optimal Knuth–Plass solution.
     Property theorems only; each is closed by [exact] of a lemma proved elsewhere. *)
 From Coq Require Import ZArith QArith List Bool.
-From CV Require Import Base.Dy Text.KPSpec Text.KP Text.KPQ Text.KPWitness.
+From CV Require Import Base.Dy Text.KPSpec Text.KP Text.KPQ Text.KPProofs Text.KPModelProofs Text.KPWitness Text.KPTheorems.
 Import ListNotations.
 
-(** REFUTED: "whenever some breaking keeps every line's ratio within [-1, Tolerance] the returned one does". *)
+(** F. The textbook dynamic programme is sound, complete and optimal: for every paragraph, width, tuning
+    parameters and admissibility predicate on ratios, [kp_opt] returns a complete feasible breaking of minimal
+    total demerits whenever one exists, and [None] only if none exists (exact rationals). *)
+Theorem C17_kp_opt_optimal : forall (P : params Q) (items : list (item Q)) (width : Q) (feas : xr Q -> bool),
+  (forall d ch, kp_opt QO P items width feas = Some (d, ch) ->
+     (exists f, chain_eval QO P items width feas ch = Some (f, d)) /\ complete items ch = true /\
+     (forall ch' f' d', chain_eval QO P items width feas ch' = Some (f', d') -> complete items ch' = true -> (d <= d')%Q)) /\
+  (kp_opt QO P items width feas = None ->
+     forall ch' f' d', chain_eval QO P items width feas ch' = Some (f', d') -> complete items ch' = true -> False).
+Proof. exact kp_opt_optimal_Q. Qed.
+Print Assumptions C17_kp_opt_optimal.
+
+(** F. The same for any number structure with a reflexive, transitive, total order and monotone addition. *)
+Theorem C17_kp_opt_optimal_generic : forall (num : Type) (O : ops num) (P : params num),
+  (forall a, nleb O a a = true) ->
+  (forall a b c, nleb O a b = true -> nleb O b c = true -> nleb O a c = true) ->
+  (forall a b, nleb O a b = false -> nleb O b a = true) ->
+  (forall a b, nltb O a b = negb (nleb O b a)) ->
+  (forall c a b, nleb O a b = true -> nleb O (nadd O c a) (nadd O c b) = true) ->
+  forall (items : list (item num)) (width : num) (feas : xr num -> bool),
+  (forall d ch, kp_opt O P items width feas = Some (d, ch) ->
+     (exists f, chain_eval O P items width feas ch = Some (f, d)) /\ complete items ch = true /\
+     (forall ch' f' d', chain_eval O P items width feas ch' = Some (f', d') -> complete items ch' = true -> nleb O d d' = true)) /\
+  (kp_opt O P items width feas = None ->
+     forall ch' f' d', chain_eval O P items width feas ch' = Some (f', d') -> complete items ch' = true -> False).
+Proof. exact @kp_opt_sound_optimal. Qed.
+Print Assumptions C17_kp_opt_optimal_generic.
+
+(** F. What "a chain evaluates" means in the words of the property: legal breakpoints, strictly increasing
+    (the chain is listed most recent first), every forced break up to its last break included. *)
+Theorem C17_chain_legal : forall (num : Type) (O : ops num) (P : params num) (items : list (item num)) ch,
+  chain_struct O P items ch = true -> Forall (fun b => legal O P items b = true) ch.
+Proof. exact @chain_struct_legal. Qed.
+Print Assumptions C17_chain_legal.
+
+Theorem C17_chain_increasing : forall (num : Type) (O : ops num) (P : params num) (items : list (item num)) ch,
+  chain_struct O P items ch = true -> forall b rest, ch = b :: rest -> Forall (fun a => (a < b)%nat) rest.
+Proof. exact @chain_struct_sorted. Qed.
+Print Assumptions C17_chain_increasing.
+
+Theorem C17_chain_forced_included : forall (num : Type) (O : ops num) (P : params num) (items : list (item num)) ch,
+  chain_struct O P items ch = true ->
+  forall i b rest, ch = b :: rest -> (i <= b)%nat -> forced_at O P items i = true -> In i ch.
+Proof. exact @chain_struct_forced. Qed.
+Print Assumptions C17_chain_forced_included.
+
+Theorem C17_feasible_chain_is_structural : forall (num : Type) (O : ops num) (P : params num) (items : list (item num)) width feas ch r,
+  chain_eval O P items width feas ch = Some r -> chain_struct O P items ch = true.
+Proof. exact @chain_eval_struct. Qed.
+Print Assumptions C17_feasible_chain_is_structural.
+
+(** F. Breakpoints returned by the faithful model of Linebreak (any number structure with reflexive equality test
+    in which forced penalties lie below +Infinity; any looseness, fuel, restarts, overflow): legal, strictly
+    increasing, no forced break skipped; on a paragraph that ends in a forced break the last one is the last item. *)
+Theorem C17_model_breaks_legal : forall (num : Type) (O : ops num) (P : params num),
+  (forall x, neqb O x x = true) ->
+  (forall it, forced O P it = true -> nltb O (ip it) (pInf P) = true) ->
+  forall (items : list (item num)) (width : num) looseness fuel bs ok,
+  linebreak O P items width looseness fuel = Done bs ok ->
+  forced_at O P items (length items - 1) = true ->
+  exists ch, (map (@oPos num) bs = map Z.of_nat (rev ch)) /\
+             (chain_struct O P items ch = true) /\ (hd_error ch = Some (length items - 1)%nat).
+Proof. exact @model_breaks_legal. Qed.
+Print Assumptions C17_model_breaks_legal.
+
+Theorem C17_model_breaks_legal_Q : forall (P : params Q), (0 < pInf P)%Q ->
+  forall (items : list (item Q)) (width : Q) looseness fuel bs ok,
+  linebreak QO P items width looseness fuel = Done bs ok ->
+  forced_at QO P items (length items - 1) = true ->
+  chain_struct QO P items (rev (out_positions bs)) = true /\
+  hd_error (rev (out_positions bs)) = Some (length items - 1)%nat.
+Proof. exact model_breaks_legal_Q. Qed.
+Print Assumptions C17_model_breaks_legal_Q.
+
+(** F. The goto-START loop makes progress: a pass asks for a restart only with a strictly larger tolerance
+    (a ratio that occurred, or +Inf), and never once the tolerance is +Inf. *)
+Theorem C17_restart_raises_tolerance : forall (num : Type) (O : ops num) (P : params num) (items : list (item num)) (width : num)
+  tol l b cur act inact ovf t ovf',
+  pass O P items width tol l b cur act inact None ovf = PRestart t ovf' ->
+  match tol, t with
+  | Some a, Some x => nltb O a x = true
+  | Some _, None => True
+  | None, _ => False
+  end.
+Proof. exact restart_raises_tolerance_init. Qed.
+Print Assumptions C17_restart_raises_tolerance.
+
+(** P. Model versus optimum: whenever the model's breaking is feasible, kp_opt finds one that is at least as good.
+    (Missing for the full claim: the converse under [Monotone]; see KPTheorems.v.) *)
+Theorem C17_model_vs_opt_partial : forall (P : params Q), (0 < pInf P)%Q ->
+  forall (items : list (item Q)) (width : Q) looseness fuel bs ok feas f d,
+  linebreak QO P items width looseness fuel = Done bs ok ->
+  forced_at QO P items (length items - 1) = true ->
+  chain_eval QO P items width feas (rev (out_positions bs)) = Some (f, d) ->
+  exists dopt ch, kp_opt QO P items width feas = Some (dopt, ch) /\ (dopt <= d)%Q.
+Proof. exact model_vs_opt_partial. Qed.
+Print Assumptions C17_model_vs_opt_partial.
+
+(** R. REFUTED: "whenever some breaking keeps every line's ratio within [-1, Tolerance] the returned one does".
+    On Box 50, Glue(10,5,3), Box 38, Penalty(w=10,p=50,flagged), Box 1, Glue(0,oo,0), Penalty(-oo) at width 100
+    kp_opt finds the one-line breaking [6] (ratio 1/1005) while the faithful model returns [1; 6], whose first
+    line is not feasible at the default tolerance, with ok = true. *)
 Theorem C17_model_optimal_refuted :
   (exists d, kp_opt QO default_params witness_items 100 (feas_tol QO (Some 2)) = Some (d, [6%nat])) /\
   (exists bs, linebreak QO default_params witness_items 100 0 60 = Done bs true /\
